@@ -236,8 +236,12 @@ pub fn gen_c17(run: &mut crate::Run, seed: u64, thorough: bool) {
         let mut former_owner: Option<Addr> = None;
         let mut members: Vec<Addr> = vec![];
         let mut former: Vec<Addr> = vec![];
+        // "ghosts": ACCOUNT-type addresses that share their 32 bytes with a contract-type person, and the all-zero account
+        // (the library's ZERO_ADDRESS). Membership is per ADDRESS: adding a ghost makes nobody else a member.
+        // (the test host cannot mock an exact authorisation for an account address: ghosts call only under `*` or nothing)
+        let ghosts: Vec<Addr> = vec![Addr { contract: false, id: people[0].id }, Addr { contract: false, id: people[1].id }, Addr { contract: false, id: [0u8; 32] }];
         for _ in 0..len {
-            let a = rng.pick(&people).clone();
+            let a = if rng.chance(1, 6) { rng.pick(&ghosts).clone() } else { rng.pick(&people).clone() };
             let auth_for = |right: &Addr, rng: &mut Rng, former_owner: &Option<Addr>| -> (String, &'static str) {
                 match rng.below(16) {
                     0 => ("-".into(), "nobody"),
@@ -307,13 +311,14 @@ pub fn gen_c17(run: &mut crate::Run, seed: u64, thorough: bool) {
                     };
                     let contract = if rng.chance(1, 15) { Addr::c(162) } else { probe.clone() };
                     let tcls2 = if contract == probe { "" } else { "-no-contract" };
-                    let (au, ac) = auth_for(&caller, &mut rng, &former_owner);
-                    run.op(&format!("op.execute {} {} {} {} {}", caller.tok(), contract.tok(), func, args, au), &format!("execute-{ccls}-{tcls}{tcls2}-{ac}"));
+                    let (au, ac) = if caller.contract { auth_for(&caller, &mut rng, &former_owner) } else if rng.chance(1, 2) { ("*".to_string(), "everyone") } else { ("-".to_string(), "nobody") };
+                    let gcls = if caller.contract { if ghosts.iter().any(|g| members.contains(g) && g.id == caller.id) { "-twin-of-member-ghost" } else { "" } } else { "-ghost" };
+                    run.op(&format!("op.execute {} {} {} {} {}", caller.tok(), contract.tok(), func, args, au), &format!("execute-{ccls}{gcls}-{tcls}{tcls2}-{ac}"));
                     run.op("probe.count", "q");
                     run.op("probe.last", "q");
                 }
             }
-            for p in &people {
+            for p in people.iter().chain(ghosts.iter()) {
                 run.op(&format!("op.is_operator {}", p.tok()), "q");
             }
         }
